@@ -45,65 +45,101 @@ Proof.
 Qed.
 
 (* ------------------------------------------------------------------ the invariant *)
-Definition pending_bytes (ts : list task) : list Z := concat (map (fun tk => concat (t_chunks tk)) ts).
+Definition entry_task (e : entry) : task := match e with EHandoff tk => tk | EStep tk => tk end.
 
-Record Inv (prog : nat -> list msg) (s : pstate) : Prop := mkInv {
-  inv_tasks : Forall (fun tk => concat (t_chunks tk) = t_msg tk) (tasks s);
-  inv_bytes : wire s ++ concat (queue s) ++ pending_bytes (tasks s) = concat (map snd (order s));
-  inv_threads : forall t, thread_part t (order s) ++ todo s t = prog t
+Record Inv (c : pcfg) (prog : nat -> list msg) (s : pstate) : Prop := mkInv {
+  inv_tasks : Forall (fun e => concat (t_chunks (entry_task e)) = t_msg (entry_task e)) (ready s);
+  inv_direct : Forall (fun e => match e with EHandoff tk => p_direct c (t_thread tk) = false | EStep _ => True end) (ready s);
+  inv_bytes : wire s ++ cur s ++ concat (queue s) = concat (map snd (order s));
+  inv_threads : forall t, thread_part t (order s) ++ steps_of t (ready s) ++ handoffs_of t (ready s) ++ todo s t = prog t
 }.
 
-Lemma inv_init : forall prog, Inv prog (init prog).
-Proof. intro prog. constructor; cbn; auto. Qed.
+Lemma inv_init : forall c prog, Inv c prog (init prog).
+Proof. intros c prog. constructor; cbn; auto. Qed.
 
 Lemma thread_part_app : forall t a b, thread_part t (a ++ b) = thread_part t a ++ thread_part t b.
 Proof. intros. unfold thread_part. rewrite filter_app, map_app. reflexivity. Qed.
 
-Lemma inv_step : forall md prog s o, mode_ok md -> Inv prog s -> Inv prog (step md s o).
+Lemma steps_of_app : forall t a b, steps_of t (a ++ b) = steps_of t a ++ steps_of t b.
 Proof.
-  intros md prog s o Hmd [I1 I2 I3]. destruct o as [t| |]; cbn [step].
-  - destruct (todo s t) as [|m rest] eqn:Et; [constructor; auto|].
-    destruct (chunks_mode_ok md m Hmd) as [cs [Hc Hcat]]. rewrite Hc.
-    constructor; cbn [todo tasks queue wire order].
-    + apply Forall_app. split; [exact I1|]. constructor; [exact Hcat | constructor].
-    + unfold pending_bytes in *. rewrite !map_app, !concat_app. cbn. rewrite !app_nil_r, Hcat.
-      rewrite <- I2. rewrite !app_assoc. reflexivity.
-    + intro u. rewrite thread_part_app. cbn. destruct (Nat.eqb u t) eqn:E.
-      * apply Nat.eqb_eq in E. subst u. rewrite Nat.eqb_refl. cbn.
-        rewrite <- app_assoc. cbn. rewrite <- Et. apply I3.
-      * rewrite Nat.eqb_sym, E. cbn. rewrite app_nil_r. apply I3.
-  - destruct (tasks s) as [|tk rest] eqn:Et; [constructor; auto; rewrite Et; auto|].
-    constructor; cbn [todo tasks queue wire order]; auto.
-    + inversion I1; auto.
-    + rewrite <- I2. unfold pending_bytes. cbn. rewrite concat_app, <- !app_assoc. reflexivity.
-  - destruct (queue s) as [|c rest] eqn:Eq; [constructor; auto; rewrite Eq; auto|].
-    constructor; cbn [todo tasks queue wire order]; auto.
-    rewrite <- I2. cbn. rewrite <- !app_assoc. reflexivity.
+  induction a as [|[tk|tk] a IH]; intro b; cbn; auto.
+  destruct (Nat.eqb (t_thread tk) t); cbn; rewrite IH; reflexivity.
 Qed.
 
-Lemma inv_run : forall md prog ops, mode_ok md -> Inv prog (run md prog ops).
+Lemma handoffs_of_app : forall t a b, handoffs_of t (a ++ b) = handoffs_of t a ++ handoffs_of t b.
 Proof.
-  intros md prog ops Hmd. unfold run.
-  assert (H : forall s, Inv prog s -> Inv prog (fold_left (step md) ops s)).
+  induction a as [|[tk|tk] a IH]; intro b; cbn; auto.
+  destruct (Nat.eqb (t_thread tk) t); cbn; rewrite IH; reflexivity.
+Qed.
+
+Lemma handoffs_direct_nil : forall c t l, p_direct c t = true ->
+  Forall (fun e => match e with EHandoff tk => p_direct c (t_thread tk) = false | EStep _ => True end) l ->
+  handoffs_of t l = [].
+Proof.
+  induction l as [|[tk|tk] l IH]; intros Hd HF; cbn; auto; inversion HF; subst; auto.
+  destruct (Nat.eqb (t_thread tk) t) eqn:E; auto.
+  apply Nat.eqb_eq in E. subst t. congruence.
+Qed.
+
+Ltac lists := cbn; rewrite ?app_nil_r; rewrite <- ?app_assoc; cbn; rewrite ?app_nil_r; try reflexivity.
+
+Lemma inv_step : forall c prog s o, mode_ok (p_mode c) -> p_keep_rest c = true -> Inv c prog s -> Inv c prog (step c s o).
+Proof.
+  intros c prog s o Hmd Hk [I1 I2 I3 I4]. destruct o as [t| |k]; cbn [step].
+  - (* Push *)
+    destruct (todo s t) as [|m rest] eqn:Et; [constructor; auto|].
+    destruct (chunks_mode_ok (p_mode c) m Hmd) as [cs [Hc Hcat]]. rewrite Hc.
+    constructor; cbn [todo ready queue cur wire order]; auto.
+    + apply Forall_app. split; [exact I1|]. constructor; [|constructor]. destruct (p_direct c t); cbn; exact Hcat.
+    + apply Forall_app. split; [exact I2|]. constructor; [|constructor]. destruct (p_direct c t) eqn:Ed; cbn; auto.
+    + intro u. rewrite steps_of_app, handoffs_of_app. destruct (Nat.eqb u t) eqn:E.
+      * apply Nat.eqb_eq in E. subst u. specialize (I4 t). rewrite Et in I4. rewrite <- I4.
+        destruct (p_direct c t) eqn:Ed; cbn; rewrite Nat.eqb_refl.
+        -- rewrite (handoffs_direct_nil c t (ready s) Ed I2). lists.
+        -- lists.
+      * specialize (I4 u). rewrite <- I4.
+        assert (Hne : Nat.eqb t u = false) by (rewrite Nat.eqb_sym; exact E).
+        destruct (p_direct c t); cbn; rewrite Hne; lists.
+  - (* RunReady *)
+    destruct (ready s) as [|[tk|tk] rest] eqn:Er; [constructor; auto; rewrite ?Er; auto| |].
+    + (* handoff -> task step at the end of the queue *)
+      try rewrite Er in I1; try rewrite Er in I2; inversion I1; subst; inversion I2; subst.
+      constructor; cbn [todo ready queue cur wire order]; auto.
+      * apply Forall_app. split; auto.
+      * apply Forall_app. split; auto.
+      * intro u. specialize (I4 u). try rewrite Er in I4. cbn in I4. rewrite steps_of_app, handoffs_of_app. cbn.
+        destruct (Nat.eqb (t_thread tk) u); cbn in *; rewrite <- I4; lists.
+    + (* task step: all chunks of the message enter the write queue *)
+      try rewrite Er in I1; try rewrite Er in I2; inversion I1; subst; inversion I2; subst.
+      constructor; cbn [todo ready queue cur wire order]; auto.
+      * rewrite map_app, !concat_app. cbn. rewrite app_nil_r. cbn in H1. rewrite H1. rewrite <- I3, <- !app_assoc. reflexivity.
+      * intro u. specialize (I4 u). try rewrite Er in I4. cbn in I4. rewrite thread_part_app. cbn.
+        destruct (Nat.eqb (t_thread tk) u); cbn in *; rewrite <- I4; lists.
+  - (* SendPart *)
+    rewrite Hk. destruct (cur s) as [|x cu] eqn:Ec.
+    + destruct (queue s) as [|ch rest] eqn:Eq; [constructor; auto; rewrite ?Ec, ?Eq; auto|].
+      constructor; cbn [todo ready queue cur wire order]; auto.
+      rewrite <- I3. cbn. rewrite <- !app_assoc. rewrite (app_assoc (firstn k ch)), firstn_skipn. reflexivity.
+    + constructor; cbn [todo ready queue cur wire order]; auto.
+      rewrite <- I3. rewrite <- !app_assoc. rewrite (app_assoc (firstn k (x :: cu))), firstn_skipn. reflexivity.
+Qed.
+
+Lemma inv_run : forall c prog ops, mode_ok (p_mode c) -> p_keep_rest c = true -> Inv c prog (run c prog ops).
+Proof.
+  intros c prog ops Hmd Hk. unfold run.
+  assert (H : forall s, Inv c prog s -> Inv c prog (fold_left (step c) ops s)).
   { induction ops as [|o ops IH]; intros s Hs; cbn; auto. apply IH. apply inv_step; auto. }
   apply H. apply inv_init.
 Qed.
 
-Lemma pending_bytes_msgs : forall ts, Forall (fun tk => concat (t_chunks tk) = t_msg tk) ts ->
-  pending_bytes ts = concat (map t_msg ts).
+Lemma order_main : forall c prog ops, mode_ok (p_mode c) -> p_keep_rest c = true ->
+  let s := run c prog ops in
+  wire s ++ cur s ++ concat (queue s) = concat (map snd (order s))
+  /\ (forall t, thread_part t (order s) ++ steps_of t (ready s) ++ handoffs_of t (ready s) ++ todo s t = prog t)
+  /\ (drained s -> wire s = concat (map snd (order s)) /\ forall t, thread_part t (order s) ++ todo s t = prog t).
 Proof.
-  induction ts as [|tk ts IH]; intro H; cbn; auto. inversion H; subst.
-  unfold pending_bytes in *. cbn. rewrite IH; auto. congruence.
-Qed.
-
-Lemma order_main : forall md prog ops, mode_ok md ->
-  let s := run md prog ops in
-  wire s ++ concat (queue s) ++ concat (map t_msg (tasks s)) = concat (map snd (order s))
-  /\ (forall t, thread_part t (order s) ++ todo s t = prog t)
-  /\ (tasks s = [] -> queue s = [] -> wire s = concat (map snd (order s)))
-  /\ Forall (fun tk => concat (t_chunks tk) = t_msg tk) (tasks s).
-Proof.
-  intros md prog ops Hmd s. destruct (inv_run md prog ops Hmd) as [I1 I2 I3]. fold s in I1, I2, I3.
-  rewrite (pending_bytes_msgs _ I1) in I2. repeat split; auto.
-  intros Ht Hq. rewrite Ht, Hq in I2. cbn in I2. rewrite app_nil_r in I2. exact I2.
+  intros c prog ops Hmd Hk s. destruct (inv_run c prog ops Hmd Hk) as [I1 I2 I3 I4]. fold s in I1, I2, I3, I4.
+  repeat split; auto.
+  - destruct H as [Hr [Hq Hc]]. rewrite Hq, Hc in I3. cbn in I3. rewrite app_nil_r in I3. exact I3.
+  - intro t. destruct H as [Hr [Hq Hc]]. specialize (I4 t). rewrite Hr in I4. cbn in I4. exact I4.
 Qed.
